@@ -1474,7 +1474,9 @@ func (nd *KVNode) applyCommits(commitC <-chan applyInfo) {
 			if ent.raftDone == nil {
 				nodeLog.Panicf("wrong events : %v", ent)
 			}
+			verifCrashPoint("ap.apply.before", np.appliedi, uint64(len(ent.ents)), ent.snapshot.Metadata.Index)
 			confChanged, forceBackup := nd.applyAll(&np, &ent)
+			verifCrashPoint("ap.apply.after", np.appliedi)
 
 			// wait for the raft routine to finish the disk writes before triggering a
 			// snapshot. or applied index might be greater than the last index in raft
@@ -1484,13 +1486,16 @@ func (nd *KVNode) applyCommits(commitC <-chan applyInfo) {
 			case <-nd.stopChan:
 				return
 			}
+			verifCrashPoint("ap.raftdone.after", np.appliedi)
 			if ent.applyWaitDone != nil {
 				close(ent.applyWaitDone)
 			}
 			if len(commitC) == 0 {
 				nd.rn.node.NotifyEventCh()
 			}
+			verifCrashPoint("ap.trigger.before", np.appliedi, np.snapi)
 			nd.maybeTriggerSnapshot(&np, confChanged, forceBackup)
+			verifCrashPoint("ap.trigger.after", np.appliedi, np.snapi)
 			nd.rn.handleSendSnapshot(&np)
 		}
 	}
